@@ -91,15 +91,13 @@ func (g *Gateway) subscriptionHandler(w http.ResponseWriter, r *http.Request) {
 		// gracefully close connection
 		body := ws.NewCloseFrameBody(ws.StatusNormalClosure, "")
 		frame := ws.NewCloseFrame(body)
+		// the close frame is a courtesy: whether or not the client can still be told,
+		// the connection and everything that runs for it end here
 		conn.mu.Lock()
-		err := ws.WriteHeader(conn, frame.Header)
-		if err == nil {
-			_, err = conn.Write(body)
+		if err := ws.WriteHeader(conn, frame.Header); err == nil {
+			conn.Write(body)
 		}
 		conn.mu.Unlock()
-		if err != nil {
-			return
-		}
 
 		// close conn
 		conn.Close()
